@@ -15,7 +15,10 @@ from . import c18
 from .conn_common import build_head, OKHEAD
 
 LABELS = ["a", "b", "ab", "ba"]
-PROXY_VARS = ["http_proxy", "HTTP_PROXY", "https_proxy", "HTTPS_PROXY", "no_proxy", "NO_PROXY"]
+# variables that other tools read but that the property does not name: whatever they hold, they decide nothing
+UNRELATED_VARS = ["all_proxy", "ALL_PROXY", "ws_proxy", "wss_proxy", "WS_PROXY", "WSS_PROXY", "socks_proxy", "SOCKS_PROXY", "ftp_proxy",
+                  "proxy", "PROXY"]
+PROXY_VARS = ["http_proxy", "HTTP_PROXY", "https_proxy", "HTTPS_PROXY", "no_proxy", "NO_PROXY"] + UNRELATED_VARS
 
 
 def names(maxlen):
@@ -131,6 +134,8 @@ def decision_events(ctx, rng):
         if wrong:
             env[other] = "http://%s:1" % wrong
             env[other.upper()] = "http://%s:2" % wrong
+            for k, v in enumerate(UNRELATED_VARS):
+                env[v] = "http://user:pw@%s:%d" % (wrong, 3 + k)
         if npl:
             env["no_proxy"] = ",".join(entry_text(e) for e in nplists[npl])
         if npu:
